@@ -14,7 +14,9 @@ import (
 	"testing"
 	"time"
 
+	"github.com/edgexfoundry/device-sdk-go/v4/pkg/interfaces/mocks"
 	edgexErr "github.com/edgexfoundry/go-mod-core-contracts/v4/errors"
+	"github.com/edgexfoundry/go-mod-core-contracts/v4/models"
 )
 
 // logger that keeps the Debug lines (the probe estimate is only visible there)
@@ -46,9 +48,30 @@ var c16EstRe = regexp.MustCompile(`total estimated network probes: (-?\d+)`)
 // on every IPv4 address records which local address each probe connected to and hangs up.
 // Answer: "<estimate logged> <probes> <probed addresses, sorted>"
 func c16Discover(asyncLimit int, subnets []string) string {
+	return c16DiscoverReg(asyncLimit, subnets, nil)
+}
+
+// c16DiscoverReg: the same with devices already registered in EdgeX and operating (UP) at the given
+// addresses on the scanned port: discovery enumerates them like every other address of their subnet
+// (the estimate counts them) but does not probe them. The run gets 25 s.
+func c16DiscoverReg(asyncLimit int, subnets []string, registered []uint32) string {
 	ln, err := net.Listen("tcp4", "0.0.0.0:0")
 	if err != nil {
 		return "error " + err.Error()
+	}
+	if registered != nil {
+		port := strconv.Itoa(ln.Addr().(*net.TCPAddr).Port)
+		var devs []models.Device
+		for i, a := range registered {
+			host := net.IPv4(byte(a>>24), byte(a>>16), byte(a>>8), byte(a)).String()
+			devs = append(devs, models.Device{Name: "registered-" + strconv.Itoa(i), OperatingState: models.Up, AdminState: models.Unlocked,
+				Protocols: map[string]models.ProtocolProperties{"tcp": {"host": host, "port": port}}})
+		}
+		sm := &mocks.DeviceServiceSDK{}
+		sm.On("Devices").Return(devs)
+		oldSvc := driver.svc
+		driver.svc = sm
+		defer func() { driver.svc = oldSvc }()
 	}
 	var mu sync.Mutex
 	var got []uint32
@@ -84,7 +107,7 @@ func c16Discover(asyncLimit int, subnets []string) string {
 	returned := true
 	select {
 	case <-done:
-	case <-time.After(60 * time.Second):
+	case <-time.After(map[bool]time.Duration{false: 60 * time.Second, true: 25 * time.Second}[registered != nil]):
 		returned = false
 	}
 	driver.lc = old
@@ -134,6 +157,7 @@ func c16Discover(asyncLimit int, subnets []string) string {
 //	sz <p>                computeNetSz(p)
 //	slow <cidr> <k> <ms>  full enumeration by a consumer that pauses <ms> after k addresses (answer as gen)
 //	disc <limit> <cidr,cidr,..>  autoDiscover over loopback subnets: "<estimate> <count> <sorted addresses>"
+//	discreg <limit> <cidrs> <a,a,..>  the same with operating devices registered at those addresses (not probed, but enumerated)
 func TestVerifC16(t *testing.T) {
 	lines, w, done := verifIO(t)
 	defer done()
@@ -280,6 +304,16 @@ func TestVerifC16(t *testing.T) {
 				}
 			}
 			fmt.Fprintf(w, "%s\n", c16Discover(limit, subnets))
+		case "discreg":
+			// disc with devices registered and operating at the listed addresses (uint32, comma separated)
+			limit, _ := strconv.Atoi(f[1])
+			subnets := strings.Split(f[2], ",")
+			reg := []uint32{}
+			for _, x := range strings.Split(f[3], ",") {
+				v, _ := strconv.ParseUint(x, 10, 32)
+				reg = append(reg, uint32(v))
+			}
+			fmt.Fprintf(w, "%s\n", c16DiscoverReg(limit, subnets, reg))
 		case "disccancel":
 			// autoDiscover over large loopback subnets against a closed port, cancelled after <ms>:
 			// "true" iff the call returns within 5 s of the cancellation
